@@ -1,0 +1,53 @@
+//go:build verif && amd64 && gc && !purego
+
+package blake2s
+
+import (
+	"errors"
+
+	"golang.org/x/sys/cpu"
+)
+
+// VerifImpls lists the hashBlocks variants this CPU can run.
+func VerifImpls() []string {
+	var l []string
+	if cpu.X86.HasSSE41 {
+		l = append(l, "sse4")
+	}
+	if cpu.X86.HasSSSE3 {
+		l = append(l, "ssse3")
+	}
+	if cpu.X86.HasSSE2 {
+		l = append(l, "sse2")
+	}
+	return append(l, "generic")
+}
+
+// VerifSetImpl forces hashBlocks to dispatch to the named variant ("" restores
+// the CPU default).
+func VerifSetImpl(name string) error {
+	switch name {
+	case "":
+		useSSE4, useSSSE3, useSSE2 = cpu.X86.HasSSE41, cpu.X86.HasSSSE3, cpu.X86.HasSSE2
+	case "sse4":
+		if !cpu.X86.HasSSE41 {
+			return errors.New("unsupported")
+		}
+		useSSE4, useSSSE3, useSSE2 = true, false, false
+	case "ssse3":
+		if !cpu.X86.HasSSSE3 {
+			return errors.New("unsupported")
+		}
+		useSSE4, useSSSE3, useSSE2 = false, true, false
+	case "sse2":
+		if !cpu.X86.HasSSE2 {
+			return errors.New("unsupported")
+		}
+		useSSE4, useSSSE3, useSSE2 = false, false, true
+	case "generic":
+		useSSE4, useSSSE3, useSSE2 = false, false, false
+	default:
+		return errors.New("unknown")
+	}
+	return nil
+}
